@@ -683,7 +683,7 @@ pub fn t_scope(a: &[i64]) -> Val {
 
 // ------------------------------------------------------------------------------------------------
 // t_inherit: bases A and B, derived D (bases: a: A [, b: B]), and DD (base d: D)  (C06, C07, C04, C16)
-// a = [ps, a_vft, b_vft, two_bases, d_block, mutation, dd_present, dd_block, a_impl, b_impl, d_impl, clash, a_fn_vis, cc, d_priv_k]
+// a = [ps, a_vft, b_vft, two_bases, d_block, mutation, dd_present, dd_block, a_impl, b_impl, d_impl, clash, a_fn_vis, cc, d_priv_k, b_is_a, dd_two]
 //  a_vft/b_vft: base has a vftable block with functions f0(&self, x: u32) -> u32 and f1(&mut self)
 //  d_block: 0 none; 1 repeats A's two functions (+ own `h`); 2 only own `h` (no base prefix)
 //  mutation (applied to D's copy of f0 when d_block == 1): 0 none, 1 rename, 2 parameter type, 3 return type,
@@ -756,7 +756,8 @@ pub fn t_inherit(a: &[i64]) -> Val {
     }
     d_stmts.push(field("a", "A").with_attributes([A::base()]));
     if a[3] != 0 {
-        d_stmts.push(field("b", "B").with_attributes([A::base()]));
+        // a[15]: the second base has the same type as the first (a base type occurring twice in the hierarchy)
+        d_stmts.push(field("b", if a[15] != 0 { "A" } else { "B" }).with_attributes([A::base()]));
     }
     d_stmts.push(field("dx", word));
 
@@ -771,6 +772,10 @@ pub fn t_inherit(a: &[i64]) -> Val {
             dd_stmts.push(TS::vftable([F::new((V::Public, "hh"), [Ar::ConstSelf])]));
         }
         dd_stmts.push(field("d", "D").with_attributes([A::base()]));
+        if a[16] != 0 {
+            // a[16]: DD has a second base B (which may own a vftable pointer at a shallower depth than DD's first-base chain)
+            dd_stmts.push(field("b2", "B").with_attributes([A::base()]));
+        }
         dd_stmts.push(field("ddx", word));
         defs.push(ID::new((V::Public, "DD"), TD::new(dd_stmts)));
     }
